@@ -75,6 +75,27 @@ class PersistenceLandscaper(BaseEstimator, TransformerMixin):
         self.num_steps = num_steps
         self.flatten = flatten
 
+    # `start` and `stop` remember who set them: a bound assigned by the user (in
+    # the constructor, by attribute assignment or through `set_params`) is kept
+    # by `fit`; a bound learned by an earlier `fit` is learned again.
+    @property
+    def start(self):
+        return self._start
+
+    @start.setter
+    def start(self, value):
+        self._start = value
+        self._start_is_fitted = False
+
+    @property
+    def stop(self):
+        return self._stop
+
+    @stop.setter
+    def stop(self, value):
+        self._stop = value
+        self._stop_is_fitted = False
+
     def __repr__(self):
         if self.start is None or self.stop is None:
             return f"PersistenceLandscaper(hom_deg={self.hom_deg}, num_steps={self.num_steps})"
@@ -96,11 +117,11 @@ class PersistenceLandscaper(BaseEstimator, TransformerMixin):
         _dgm = X[self.hom_deg]
         # grid bounds learned by an earlier fit are recomputed from the new
         # data; bounds given by the user are kept
-        if self.start is None or getattr(self, "_start_is_fitted", False):
-            self.start = min(_dgm, key=itemgetter(0))[0]
+        if self._start is None or self._start_is_fitted:
+            self._start = min(_dgm, key=itemgetter(0))[0]
             self._start_is_fitted = True
-        if self.stop is None or getattr(self, "_stop_is_fitted", False):
-            self.stop = max(_dgm, key=itemgetter(1))[1]
+        if self._stop is None or self._stop_is_fitted:
+            self._stop = max(_dgm, key=itemgetter(1))[1]
             self._stop_is_fitted = True
         return self
 
